@@ -1,6 +1,6 @@
 (* The scan of a fresh overlay (import + loading every directory) shows exactly the overlayfs
    union of the layers: view (load_all (fresh u ls)) = merge (u :: ls), for all layer contents. *)
-From Coq Require Import List String NArith Bool Lia.
+From Coq Require Import List String Arith NArith Bool Lia.
 From FB Require Import Model.Overlay.
 Import ListNotations.
 Local Open Scope N_scope.
@@ -275,3 +275,74 @@ Proof.
     + cbn [view_node n_wh]. reflexivity.
 Qed.
 End Scan.
+
+(* ------------------------------------------------------------------ the fresh overlay *)
+Definition layer_ok (t : tree) : Prop := wf t /\ is_dirT t = true.   (* a layer root is a directory *)
+
+Lemma root_real_cons s k up t : get_layer s k = Some t -> layer_ok t -> cons_real s (root_real k up t) t.
+Proof.
+  intros Hg [Hw Hd]. unfold cons_real, root_real, real_tree; cbn. rewrite Hg. cbn.
+  destruct t; try discriminate. repeat split; auto.
+Qed.
+Lemma lower_reals_cons u ls nx : forall l j,
+  (forall i t, nth_error l i = Some t -> nth_error ls (j + i) = Some t) -> Forall layer_ok l ->
+  Forall2 (cons_real (fresh0 u ls nx)) (lower_reals (S j) l) l.
+Proof.
+  induction l as [|t l IH]; intros j Hn Hok; cbn [lower_reals]; [constructor|].
+  inversion Hok; subst. constructor.
+  - apply root_real_cons; [|assumption]. cbn [get_layer fresh0 lowers].
+    specialize (Hn 0%nat t eq_refl). rewrite Nat.add_0_r in Hn. exact Hn.
+  - apply IH; [|assumption]. intros i t' Hi. specialize (Hn (S i) t' Hi).
+    replace (S j + i)%nat with (j + S i)%nat by lia. exact Hn.
+Qed.
+Lemma fresh0_root u ls nx : Forall layer_ok (all_layers u ls) ->
+  fresh_node (fresh0 u ls nx) (root (fresh0 u ls nx)) (all_layers u ls).
+Proof.
+  intros Hok. unfold fresh_node. cbn [root fresh0 n_reals n_loaded n_ch n_wh]. split; [|split; [reflexivity|split; [reflexivity|]]].
+  - destruct u as [t|]; cbn [all_layers app] in *.
+    + inversion Hok; subst. constructor.
+      * apply root_real_cons; [reflexivity|assumption].
+      * apply (lower_reals_cons (Some t) ls nx ls 0); [intros i t' H; exact H|assumption].
+    + apply (lower_reals_cons None ls nx ls 0); [intros i t' H; exact H|assumption].
+  - destruct u as [t|]; cbn [app]; [reflexivity|]. destruct ls; reflexivity.
+Qed.
+(* import() already loaded the root; loading it again gives what loading the un-imported root gives *)
+Lemma load_imported_root u ls nx f :
+  let s0 := fresh0 u ls nx in
+  view_node (S f) s0 (load_node (S f) s0 (root (fresh u ls nx))) =
+  view_node (S f) s0 (load_node (S f) s0 (root s0)).
+Proof.
+  cbv zeta. set (s0 := fresh0 u ls nx). unfold fresh, load_dir, bind, get_node. fold s0.
+  cbn [nget]. change (n_loaded (root s0)) with false. cbn iota.
+  destruct (scan_children s0 (root s0)) as [cs|e] eqn:E; rewrite ?E; [|reflexivity].
+  unfold mod_node; cbn [snd root nupd].
+  cbn [load_node]. change (n_wh (set_loaded cs (root s0))) with false. change (n_wh (root s0)) with false. cbn iota.
+  assert (Hst : node_stat s0 (set_loaded cs (root s0)) = node_stat s0 (root s0)) by reflexivity.
+  rewrite Hst. destruct (node_stat s0 (root s0)) as [[m x ch| | |]|] eqn:Es.
+  - change (n_loaded (set_loaded cs (root s0))) with true. change (n_loaded (root s0)) with false. cbn iota.
+    rewrite E. reflexivity.
+  - unfold scan_children in E. rewrite Es in E. discriminate.
+  - unfold scan_children in E. rewrite Es in E. discriminate.
+  - unfold scan_children in E. rewrite Es in E. discriminate.
+  - unfold scan_children in E. rewrite Es in E. discriminate.
+Qed.
+
+Theorem scan_is_merge u ls nx : Forall layer_ok (all_layers u ls) ->
+  view (load_all (fresh u ls nx)) = merge (all_layers u ls).
+Proof.
+  intros Hok. unfold view, merge, load_all. cbn [root].
+  set (s0 := fresh0 u ls nx). set (s1 := fresh u ls nx).
+  assert (L01 : same_layers s1 s0).
+  { unfold s1, fresh, load_dir, bind, get_node. fold s0. cbn [nget].
+    change (n_loaded (root s0)) with false. cbn iota.
+    destruct (scan_children s0 (root s0)) eqn:E; rewrite ?E; split; reflexivity. }
+  rewrite (view_node_ext _ s0); [|destruct L01 as [A B]; split; cbn; assumption].
+  rewrite (load_node_ext s1 s0 _ L01).
+  unfold DEPTH. subst s1 s0. rewrite (load_imported_root u ls nx 11).
+  apply view_load. apply fresh0_root. exact Hok.
+Qed.
+
+(* hence: what a restarted instance shows is the union of what is on disk, for every state *)
+Theorem restart_shows_union s : Forall layer_ok (all_layers (upper s) (lowers s)) ->
+  view (load_all (restart s)) = merge (all_layers (upper s) (lowers s)).
+Proof. intros H. unfold restart. apply scan_is_merge. exact H. Qed.
